@@ -245,6 +245,26 @@ def plane_frame(normal):
     return e1, e2, n
 
 
+def convex_cycle(V, normal):
+    """The points of a planar set in convex position, listed counter-clockwise about ``normal`` (whatever order they came in)."""
+    V = np.asarray(V, float)
+    e1, e2, _ = plane_frame(normal)
+    c = V.mean(0)
+    ang = np.arctan2((V - c) @ e2, (V - c) @ e1)
+    return V[np.argsort(ang, kind="stable")]
+
+
+def star_listing(rng, n):
+    """Index order that visits n points (given in boundary order) with a step k coprime to n, 2 <= k <= n-2: every corner of
+    the listed cycle turns the same way although the cycle winds k times and crosses itself (a pentagram for n=5)."""
+    ks = [k for k in range(2, n - 1) if math.gcd(k, n) == 1]
+    if not ks:
+        return None
+    k = int(ks[int(rng.integers(len(ks)))])
+    start = int(rng.integers(n))
+    return [(start + k * t) % n for t in range(n)]
+
+
 def poly2d_moments(xy):
     """Signed area A (CCW positive), centroid, and positive-measure second moments about the
     origin: (int y^2, int x^2, int xy).  Works for float arrays and lists of Fractions."""
